@@ -38,7 +38,7 @@ def strategy(tier):
 
 
 def hyp_examples(tier):
-    return 3000 if tier == "quick" else 100000
+    return 8000 if tier == "quick" else 100000
 
 
 def enum_units(tier, seed):
